@@ -501,8 +501,9 @@ class SyncService(Service):
     def on_wrte(self, s, payload):
         self.stream_wrtes += 1
         self.buf = self.buf + payload
-        self._process(s)
+        # 'wrte j': the device rejects on receiving the j-th host WRTE, before looking at the records it carries
         self._fail_now(s, ('wrte', self.stream_wrtes))
+        self._process(s)
 
     def _process(self, s):
         ctx = s.dev.ctx
@@ -553,7 +554,8 @@ class SyncService(Service):
             path = core.norm(body)
             if rid == b'SEND':
                 self.cur = [path, [], None, False]
-                self._fail_now(s, ('send',))
+                if not self.failed:
+                    self._fail_now(s, ('send',))
             elif rid == b'STAT':
                 mode, sz, mt = self.fs.stat.get(path if isinstance(path, bytes) else None, (0, 0, 0))
                 self.reply(s, sync_rec(b'STAT', mode, sz, mt), 'STAT')
